@@ -1272,13 +1272,13 @@ public:
     else if_constexpr_named(cond2, detail::rlbox_is_tainted_v<T_Rhs>)
     {
       // The sandbox representation of a pointer may be an integer, so the
-      // conversion below would not notice pointers of incompatible types
+      // conversion below would not notice pointers of incompatible types, nor
+      // a pointer stored in a field that is not a pointer
+      using T_RhsRaw = detail::rlbox_remove_wrapper_t<std::remove_cv_t<T_Rhs>>;
       if_constexpr_named(
         subcond2,
-        std::is_pointer_v<T> &&
-          !std::is_assignable_v<
-            T&,
-            detail::rlbox_remove_wrapper_t<std::remove_cv_t<T_Rhs>>>)
+        (std::is_pointer_v<T> || std::is_pointer_v<T_RhsRaw>) &&
+          !(std::is_pointer_v<T> && std::is_assignable_v<T&, T_RhsRaw>))
       {
         rlbox_detail_static_fail_because(
           cond2 && subcond2,
@@ -1312,7 +1312,10 @@ public:
 
       // need to perform some typechecking to ensure we are assigning compatible
       // function pointer types only
-      if_constexpr_named(subcond1, !std::is_assignable_v<T&, T_RhsFunc>)
+      // (a function pointer converts to bool: the field must be a pointer)
+      if_constexpr_named(
+        subcond1,
+        !std::is_pointer_v<T> || !std::is_assignable_v<T&, T_RhsFunc>)
       {
         rlbox_detail_static_fail_because(
           subcond1,
